@@ -15,6 +15,7 @@
 -/
 import Model.Alias
 import Proofs.Alias
+import Proofs.AliasFamily
 
 namespace Jl.C15
 open Jl Jl.Alias
@@ -82,5 +83,59 @@ theorem clone_is_independent {C : Type} {w : World C} (h : Sep w) {i : Nat} {src
     is a kernel-evaluated witness that, in the variant where CreateRowEmpty hands out the
     prototype itself, an in-place import into the created row changes the template, and
     `bad_createEmpty_not_sep` that the separation invariant is what fails there. -/
+
+/-! ### Template FAMILIES: templates attached to one another with `WithRow` and extended afterwards
+    (`Model/AliasFamily`, `Proofs/AliasFamily`)
+
+  A world of several templates in the heap model, with the builder operations `with_ i name c` and
+  `withRow i name j` (template `i` receives a FRESH CLONE of template `j`'s prototype, made at the call), row
+  creation and the row mutators of the C15 histories.  `product w i` is what `CreateRowEmpty` of template `i` reads. -/
+
+/-- In every reachable world the cells of distinct templates' prototypes are disjoint, and disjoint from the cells of
+    every created row. -/
+theorem families_separated {C : Type} (n : Nat) (ops : List (AliasFamily.Op C)) :
+    let w := AliasFamily.run (AliasFamily.initWorld C n) ops
+    (∀ (i j : Nat) pi pj, w.tmpls[i]? = some pi → w.tmpls[j]? = some pj → i ≠ j →
+        ∀ a ∈ AliasFamily.taddrs pi, a ∉ AliasFamily.taddrs pj) ∧
+      (∀ p ∈ w.tmpls, ∀ r ∈ w.rows, ∀ a ∈ AliasFamily.taddrs p, a ∉ addrs r) :=
+  AliasFamily.reachable_separated n ops
+
+/-- A builder call on template `i` changes the product of no other template. -/
+theorem builder_call_changes_only_its_template {C : Type} {w : AliasFamily.World C} (inv : AliasFamily.Inv w)
+    (op : AliasFamily.Op C) {i : Nat} (hop : op.tmplTarget = some i) (k : Nat) (hk : k ≠ i) :
+    AliasFamily.product (AliasFamily.step w op) k = AliasFamily.product w k :=
+  AliasFamily.builder_changes_only_own inv op hop k hk
+
+/-- Attaching `j` to `i` and THEN anything — builder calls on `j` and on every other template, row creation, row
+    mutation — short of a builder call on `i` itself leaves the product of `i` as it was right after the call. -/
+theorem attached_template_extended_later {C : Type} {w : AliasFamily.World C} (inv : AliasFamily.Inv w) (i j : Nat)
+    (name : Bytes) (clone : C → C) (pack) (ops : List (AliasFamily.Op C))
+    (hops : ∀ op ∈ ops, op.tmplTarget ≠ some i) :
+    AliasFamily.product (AliasFamily.run w (.withRow i name j clone pack :: ops)) i =
+      AliasFamily.product (AliasFamily.step w (.withRow i name j clone pack)) i :=
+  AliasFamily.attached_child_any_later_history inv i j name clone pack ops hops
+
+/-- …and extending the parent afterwards does not change the template that was attached to it. -/
+theorem parent_extended_later {C : Type} {w : AliasFamily.World C} (inv : AliasFamily.Inv w) {i j : Nat}
+    (hij : i ≠ j) (name : Bytes) (clone : C → C) (pack) (ops : List (AliasFamily.Op C))
+    (hops : ∀ op ∈ ops, op.tmplTarget = some i) :
+    AliasFamily.product (AliasFamily.run w (.withRow i name j clone pack :: ops)) j = AliasFamily.product w j :=
+  AliasFamily.parent_extended_later inv hij name clone pack ops hops
+
+/-- Creating rows and mutating them, in any interleaving, changes no template's product. -/
+theorem rows_never_change_a_template {C : Type} {w : AliasFamily.World C} (inv : AliasFamily.Inv w)
+    (ops : List (AliasFamily.Op C))
+    (hops : ∀ op ∈ ops, (∃ rop, op = .row rop) ∨ (∃ i clone pack, op = .createFrom i clone pack)) (k : Nat) :
+    AliasFamily.product (AliasFamily.run w ops) k = AliasFamily.product w k :=
+  AliasFamily.row_mutation_changes_no_template inv ops hops k
+
+/-- Not vacuous, and the mechanism pinned: with the WRONG `WithRow` that stores the child's own prototype object instead
+    of a clone (the regression "WithRow keeps sub.empty itself"), extending the child afterwards DOES change what the
+    parent produces — kernel-checked on a concrete world. -/
+theorem shared_prototype_would_leak :
+    let w1 := AliasFamily.withRowShared AliasFamily.Witness.w0 0 AliasFamily.Witness.kP 1
+    let w2 := AliasFamily.step w1 (.with_ 1 AliasFamily.Witness.kLate 7)
+    AliasFamily.product w2 0 ≠ AliasFamily.product w1 0 :=
+  AliasFamily.Witness.shared_child_extended_later_changes_parent.2.2
 
 end Jl.C15
